@@ -301,6 +301,7 @@ def check_parser(ctx, mac):
     flag = sel[0][1]
     # the flag starts true and is cleared only after a `|` token
     inits = [st[2] for s in sym.subterms(t) if s[0] == "seq" for st in s[1] if st[0] == "let" and st[1][0] == "pbind" and st[1][1] == flag[1]]
+    inits = list(dict.fromkeys(inits))
     ctx.expect(len(inits) == 1 and "true" in str(inits[0]), R, "TreeTerm::parse|flag-init", site, "the list is proper until a `|` is seen")
     clears = []
     for s, lits in tables.occurrences_with_guards(t):
@@ -458,7 +459,7 @@ def check_fold(ctx, lib, rule, fn_suffix, new_suffix, inner=None, unit="succeed"
     t = ev.fn_term(fn)
     key = fn["npath"]
     site = site_of(fn)
-    fors = [s for s in sym.subterms(t) if s[0] == "for"]
+    fors = list(dict.fromkeys(s for s in sym.subterms(t) if s[0] == "for"))
     if not ctx.expect(len(fors) == 1, rule, key + "|shape", site, "expected one fold loop, found %d" % len(fors)):
         return
     f = fors[0]
@@ -496,6 +497,7 @@ def check_fold(ctx, lib, rule, fn_suffix, new_suffix, inner=None, unit="succeed"
     ctx.expect(ok, rule, key + "|step", site, "each iteration must be acc = %s(element, acc) and the result the accumulator; found %s" % (new_suffix, show(f[3], maxdepth=5)[:240]))
     if ok:
         inits = [st[2] for q in sym.subterms(t) if q[0] == "seq" for st in q[1] if st[0] == "let" and st[1][0] == "pbind" and st[1][1] == acc[1]]
+        inits = list(dict.fromkeys(inits))
         U = unit.capitalize()
         oki = len(inits) == 1 and (tables.result(inits[0])[0] == "call" and suffix_match(tables.result(inits[0])[1], unit) and not tables.result(inits[0])[2] or tables.result(inits[0])[0] == "ctor" and tables.result(inits[0])[1].endswith("::" + U))
         ctx.expect(oki, rule, key + "|unit=%s" % unit, site, "the fold must start from `%s` (the neutral element: an empty %s); starts as %s" % (unit, "conjunction holds" if unit == "succeed" else "disjunction has no answers", show(inits[0], maxdepth=4) if inits else "?"))
